@@ -144,8 +144,8 @@ def run(prop="C01", tier="quick"):
     got = collections.Counter(f.function for f in fx)
     if not got.get("fix_samesrc_bad") or got.get("fix_samesrc_good") or got.get("fix_samesrc_good_outer") or got.get("fix_samesrc_one_len"):
         raise AnalysisBroken("R-SAMESRC fixtures: %r" % dict(got))
-    if res["stats"]["samesrc_sites"] < 3:
-        raise AnalysisBroken("R-SAMESRC: only %d pointer-equality dispatch sites with separate lengths found (floor 3: mpn_mul, "
+    if res["stats"]["samesrc_sites"] < 1:
+        raise AnalysisBroken("R-SAMESRC: only %d pointer-equality dispatch sites with separate lengths found (floor 1; today 3: mpn_mul, "
                              "mpn_mul_trunc_sqrt2, mpn_mul_mfa_trunc_sqrt2)" % res["stats"]["samesrc_sites"])
     res["stats"] = dict(res["stats"])
     res["obligations"] = res["stats"]["samesrc_sites"]
